@@ -266,6 +266,10 @@ func IterateFields(t types.Type, cb func(*types.Var) (done bool)) {
 
 	for i := 0; i < strct.NumFields(); i++ {
 		m := strct.Field(i)
+		if m.Name() == "_" {
+			// A blank field cannot be referred to.
+			continue
+		}
 		if cb(m) {
 			return
 		}
